@@ -65,8 +65,13 @@ def _seeded_mutants(prop):
     return out
 
 
+def _global_benign():
+    from . import benign
+    return [{"name": n, "global": n, "expect": "clean", "what": "whole-package behaviour-preserving transform"} for n in sorted(benign.TRANSFORMS)]
+
+
 def _all_mutants(mod, prop):
-    return list(getattr(mod, "MUTANTS", [])) + _seeded_mutants(prop)
+    return list(getattr(mod, "MUTANTS", [])) + _seeded_mutants(prop) + _global_benign()
 
 
 def _run_one(args):
@@ -80,6 +85,10 @@ def _run_one(args):
     dst = tempfile.mkdtemp(prefix="m%03d_" % mutant_index, dir=workdir)
     try:
         _copy_tree(repo, dst)
+        if "global" in m:
+            from tfsa import benign
+            benign.apply(m["global"], dst)
+            m = dict(m, file=[], edits=[])
         if "patch" in m:
             import subprocess
             r = subprocess.run(["patch", "-p1", "-s", "--no-backup-if-mismatch", "-i", m["patch"]], cwd=dst, capture_output=True, text=True)
